@@ -143,7 +143,7 @@ def run(ctx):
         for key in tab:
             if key not in used:
                 ctx.ob("no-panic:%s:tabled-stale:%s" % (f.short, key), False, "tabled site `%s` of %s no longer exists (table and code disagree)" % (key, f.short), where=f.where())
-    ctx.floor("no-panic:sites", n_sites, 12)
+    ctx.floor("no-panic:sites", n_sites, 8)    # vacuity guard only: removing a site is not a violation
     ctx.floor("decimal-scale", n_ctor, 2)
     ctx.floor("casts", n_casts, 2)
     for k in table:
